@@ -1,5 +1,6 @@
 import SlipVerif.Model.Num
 import SlipVerif.Model.Printer
+import SlipVerif.Model.PrinterPretty
 import SlipVerif.Driver.Num
 import SlipVerif.Driver.Printer
 import SlipVerif.Driver.Util
